@@ -87,3 +87,12 @@ Theorem C15_lent_for_requested_db : forall mx s c t d, 0 <= mx -> reach mx s -> 
   exists b, In b s.(blocks) /\ b_db b = d /\ alookup c b.(b_conns) = Some true.
 Proof. exact p_lent_db. Qed.
 Print Assumptions C15_lent_for_requested_db.
+
+(* internal accounting behind count_conns(): pending_conns of a block is at least the number of
+   connects promised to it ([npipe]: _connect tasks scheduled, connect calls in flight, completed
+   connects not yet processed, transfers on their way); it can exceed it only by promises that were
+   lost, which the code after fix 275590b no longer does *)
+Theorem C15_pending_covers_promises : forall mx s b, 0 <= mx -> reach mx s -> In b s.(blocks) ->
+  0 <= npipe b.(b_id) s <= b.(b_pending).
+Proof. exact p_pending_covers. Qed.
+Print Assumptions C15_pending_covers_promises.
